@@ -8,6 +8,22 @@ use roto::{library, FileTree, NoCtx, Runtime, Val, Verdict};
 use std::sync::atomic::{AtomicU64, Ordering};
 use std::sync::Mutex;
 
+/// counting allocator: lets a replay observe leaked heap objects (strings are plain `Arc<str>`, their drops are not logged)
+struct Counting;
+static LIVE_ALLOCS: std::sync::atomic::AtomicI64 = std::sync::atomic::AtomicI64::new(0);
+unsafe impl std::alloc::GlobalAlloc for Counting {
+    unsafe fn alloc(&self, l: std::alloc::Layout) -> *mut u8 {
+        LIVE_ALLOCS.fetch_add(1, Ordering::SeqCst);
+        unsafe { std::alloc::System.alloc(l) }
+    }
+    unsafe fn dealloc(&self, p: *mut u8, l: std::alloc::Layout) {
+        LIVE_ALLOCS.fetch_sub(1, Ordering::SeqCst);
+        unsafe { std::alloc::System.dealloc(p, l) }
+    }
+}
+#[global_allocator]
+static GLOBAL: Counting = Counting;
+
 static EVENTS: Mutex<Vec<String>> = Mutex::new(Vec::new());
 static NEXT_ID: AtomicU64 = AtomicU64::new(1);
 
@@ -70,6 +86,17 @@ fn runtime() -> Runtime<NoCtx> {
         #[clone] type Tracked = Val<Tracked>;
         /// 3-byte copy type
         #[copy] type Tri = Val<Tri>;
+
+        /// registered constants (engine T reads their stored bytes through hook H2)
+        const K_U8: u8 = 0xA5;
+        const K_I16: i16 = -2;
+        const K_U32: u32 = 0xDEADBEEF;
+        const K_I64: i64 = -0x1122334455667788;
+        const K_BOOL: bool = true;
+        const K_OPT_U32: Option<u32> = Some(5);
+        const K_OPT_NONE_U64: Option<u64> = None;
+        const K_OPT_U8: Option<u8> = Some(200);
+        const K_VER_U8_U64: Verdict<u8, u64> = Verdict::Accept(7);
 
         fn mk(v: i32) -> Val<Tracked> { ev(format!("call mk {:#x}", v as u32)); Val(Tracked::new(v)) }
         fn eat(t: Val<Tracked>) { ev(format!("call eat {} {:#x}", t.id, t.val as u32)); }
@@ -175,6 +202,13 @@ fn dump_one(rt: &Runtime<NoCtx>, path: &str, out_dir: &str) {
         if i > 0 { o.push_str(", "); }
         o.push_str(&format!("[{a}, {}, {}]", json_str(k), json_str(d)));
     }
+    o.push_str("], \"constants\": [");
+    let consts = capture::CONSTANTS.lock().unwrap();
+    for (i, (a, n, b)) in consts.iter().enumerate() {
+        if i > 0 { o.push_str(", "); }
+        let hex: String = b.iter().map(|x| format!("{x:02x}")).collect();
+        o.push_str(&format!("[{a}, {}, \"{hex}\"]", json_str(n)));
+    }
     o.push_str("]}");
     std::fs::write(format!("{out_dir}/{stem}.json"), o).unwrap();
     // the package (and the JIT memory) is dropped here
@@ -225,9 +259,14 @@ impl<A: Bits, R: Bits> Bits for Verdict<A, R> {
     }
 }
 
+#[allow(dead_code)]
 fn finish(ret: String) {
+    finish_with(ret, 0)
+}
+
+fn finish_with(ret: String, alloc_delta: i64) {
     let evs = EVENTS.lock().unwrap();
-    let mut o = format!("{{\"ret\": {ret}, \"events\": [");
+    let mut o = format!("{{\"ret\": {ret}, \"alloc_delta\": {alloc_delta}, \"events\": [");
     for (i, e) in evs.iter().enumerate() {
         if i > 0 { o.push_str(", "); }
         o.push_str(&json_str(e));
@@ -243,12 +282,25 @@ macro_rules! sigs {
                 Ok(f) => f,
                 Err(e) => { println!("{{\"error\": {}}}", json_str(&format!("get_function: {e}"))); return; }
             };
+            if std::env::var("VERIF_LEAKCHECK").is_ok() {
+                // warm-up call (one-time allocations), then measure a second call
+                #[allow(unused_mut, unused_variables)]
+                let mut it = $args.iter();
+                let r = f.call($(<$a as Bits>::from_bits(*it.next().expect("missing argument"))),*);
+                drop(r);
+                EVENTS.lock().unwrap().clear();
+                EVENTS.lock().unwrap().shrink_to_fit();
+            }
+            let before = LIVE_ALLOCS.load(Ordering::SeqCst);
             #[allow(unused_mut, unused_variables)]
             let mut it = $args.iter();
             let r = f.call($(<$a as Bits>::from_bits(*it.next().expect("missing argument"))),*);
             let j = r.to_json();
             drop(r);
-            finish(j);
+            let evs: Vec<String> = std::mem::take(&mut *EVENTS.lock().unwrap());
+            let after = LIVE_ALLOCS.load(Ordering::SeqCst) - evs.iter().filter(|e| e.capacity() > 0).count() as i64 - (evs.capacity() > 0) as i64 - (j.capacity() > 0) as i64;
+            *EVENTS.lock().unwrap() = evs;
+            finish_with(j, after - before);
             return;
         } )*
         println!("{{\"error\": \"unknown signature {}\"}}", $sig);
